@@ -14,6 +14,7 @@ def run(tier, seed, replay=None):
     dmd_common.add_metadata_window(ck, mod)
     dmd_common.bounds_and_latest(ck, mod)
     dmd_common.writer_inputs(ck, pyload.module("digital_metadata", symbolic=False))
+    dmd_common.populate_contract(ck, pyload.module("digital_metadata", symbolic=False))
     ck.replayers["dmd."] = C13.replay_dmd
     ck.replayers["w.place"] = C13.replay_dmd
     ck.replayers["w.gen"] = C13.replay_dmd
